@@ -63,7 +63,7 @@ def scenarios(rng, quick, option_shapes=False):
     for s in shapes:
         us[vlib.canon_hash(s)] = s
     shapes = [s for s in sorted(us.values(), key=vlib.canon_hash) if s["pay"] not in ("huge", "big")]
-    bases = [{"cat": i} for i in range(52)] + [{"sample": "ppi"}, {"sample": "pktap"}]
+    bases = [{"cat": i} for i in range(55)] + [{"sample": "ppi"}, {"sample": "pktap"}]
     gold = pyenc.goldens(rng)
     bases += [{"raw": list(b), "name": n} for n, b in gold if n.startswith("dns_")]
     bases += [{"raw": list(b), "name": n} for n, b in gold if not n.startswith("dns_")][:: (4 if quick else 1)]
